@@ -507,11 +507,17 @@ impl Mapper<Size2MiB> for RecursivePageTable<'_> {
         if p4[page.p4_index()].is_unused() {
             return Err(FlagUpdateError::PageNotMapped);
         }
+        if p4[page.p4_index()].flags().contains(PageTableFlags::HUGE_PAGE) {
+            return Err(FlagUpdateError::ParentEntryHugePage);
+        }
 
         let p3 = unsafe { &mut *(p3_ptr(page, self.recursive_index)) };
 
         if p3[page.p3_index()].is_unused() {
             return Err(FlagUpdateError::PageNotMapped);
+        }
+        if p3[page.p3_index()].flags().contains(PageTableFlags::HUGE_PAGE) {
+            return Err(FlagUpdateError::ParentEntryHugePage);
         }
 
         let p2 = unsafe { &mut *(p2_ptr(page, self.recursive_index)) };
@@ -559,6 +565,9 @@ impl Mapper<Size2MiB> for RecursivePageTable<'_> {
         if p4[page.p4_index()].is_unused() {
             return Err(FlagUpdateError::PageNotMapped);
         }
+        if p4[page.p4_index()].flags().contains(PageTableFlags::HUGE_PAGE) {
+            return Err(FlagUpdateError::ParentEntryHugePage);
+        }
 
         let p3 = unsafe { &mut *(p3_ptr(page, self.recursive_index)) };
         let p3_entry = &mut p3[page.p3_index()];
@@ -589,12 +598,18 @@ impl Mapper<Size2MiB> for RecursivePageTable<'_> {
         if p4[page.p4_index()].is_unused() {
             return Err(TranslateError::PageNotMapped);
         }
+        if p4[page.p4_index()].flags().contains(PageTableFlags::HUGE_PAGE) {
+            return Err(TranslateError::ParentEntryHugePage);
+        }
 
         let p3 = unsafe { &*(p3_ptr(page, self.recursive_index)) };
         let p3_entry = &p3[page.p3_index()];
 
         if p3_entry.is_unused() {
             return Err(TranslateError::PageNotMapped);
+        }
+        if p3_entry.flags().contains(PageTableFlags::HUGE_PAGE) {
+            return Err(TranslateError::ParentEntryHugePage);
         }
 
         let p2 = unsafe { &*(p2_ptr(page, self.recursive_index)) };
@@ -688,17 +703,26 @@ impl Mapper<Size4KiB> for RecursivePageTable<'_> {
         if p4[page.p4_index()].is_unused() {
             return Err(FlagUpdateError::PageNotMapped);
         }
+        if p4[page.p4_index()].flags().contains(PageTableFlags::HUGE_PAGE) {
+            return Err(FlagUpdateError::ParentEntryHugePage);
+        }
 
         let p3 = unsafe { &mut *(p3_ptr(page, self.recursive_index)) };
 
         if p3[page.p3_index()].is_unused() {
             return Err(FlagUpdateError::PageNotMapped);
         }
+        if p3[page.p3_index()].flags().contains(PageTableFlags::HUGE_PAGE) {
+            return Err(FlagUpdateError::ParentEntryHugePage);
+        }
 
         let p2 = unsafe { &mut *(p2_ptr(page, self.recursive_index)) };
 
         if p2[page.p2_index()].is_unused() {
             return Err(FlagUpdateError::PageNotMapped);
+        }
+        if p2[page.p2_index()].flags().contains(PageTableFlags::HUGE_PAGE) {
+            return Err(FlagUpdateError::ParentEntryHugePage);
         }
 
         let p1 = unsafe { &mut *(p1_ptr(page, self.recursive_index)) };
@@ -739,6 +763,9 @@ impl Mapper<Size4KiB> for RecursivePageTable<'_> {
         if p4[page.p4_index()].is_unused() {
             return Err(FlagUpdateError::PageNotMapped);
         }
+        if p4[page.p4_index()].flags().contains(PageTableFlags::HUGE_PAGE) {
+            return Err(FlagUpdateError::ParentEntryHugePage);
+        }
 
         let p3 = unsafe { &mut *(p3_ptr(page, self.recursive_index)) };
         let p3_entry = &mut p3[page.p3_index()];
@@ -765,11 +792,17 @@ impl Mapper<Size4KiB> for RecursivePageTable<'_> {
         if p4[page.p4_index()].is_unused() {
             return Err(FlagUpdateError::PageNotMapped);
         }
+        if p4[page.p4_index()].flags().contains(PageTableFlags::HUGE_PAGE) {
+            return Err(FlagUpdateError::ParentEntryHugePage);
+        }
 
         let p3 = unsafe { &mut *(p3_ptr(page, self.recursive_index)) };
 
         if p3[page.p3_index()].is_unused() {
             return Err(FlagUpdateError::PageNotMapped);
+        }
+        if p3[page.p3_index()].flags().contains(PageTableFlags::HUGE_PAGE) {
+            return Err(FlagUpdateError::ParentEntryHugePage);
         }
 
         let p2 = unsafe { &mut *(p2_ptr(page, self.recursive_index)) };
@@ -793,6 +826,9 @@ impl Mapper<Size4KiB> for RecursivePageTable<'_> {
         if p4[page.p4_index()].is_unused() {
             return Err(TranslateError::PageNotMapped);
         }
+        if p4[page.p4_index()].flags().contains(PageTableFlags::HUGE_PAGE) {
+            return Err(TranslateError::ParentEntryHugePage);
+        }
 
         let p3 = unsafe { &*(p3_ptr(page, self.recursive_index)) };
         let p3_entry = &p3[page.p3_index()];
@@ -800,12 +836,18 @@ impl Mapper<Size4KiB> for RecursivePageTable<'_> {
         if p3_entry.is_unused() {
             return Err(TranslateError::PageNotMapped);
         }
+        if p3_entry.flags().contains(PageTableFlags::HUGE_PAGE) {
+            return Err(TranslateError::ParentEntryHugePage);
+        }
 
         let p2 = unsafe { &*(p2_ptr(page, self.recursive_index)) };
         let p2_entry = &p2[page.p2_index()];
 
         if p2_entry.is_unused() {
             return Err(TranslateError::PageNotMapped);
+        }
+        if p2_entry.flags().contains(PageTableFlags::HUGE_PAGE) {
+            return Err(TranslateError::ParentEntryHugePage);
         }
 
         let p1 = unsafe { &*(p1_ptr(page, self.recursive_index)) };
